@@ -8,6 +8,9 @@ from statistics import NormalDist
 from ..astutil import (call_name, calls_in, const_value, find_func, is_self_attr, names_in, parse_expr, parse_stmt,
                        replace_node)
 from ..frontend import AnalysisError, walk_function
+from ..cfg import CFG
+from ..dataflow import inline_env
+from ..astutil import subst_names
 from ..nf import RF, Translator, NFUnsupported, to_nf, _subst_atom
 from ..ordertable import parse_pred
 from ..report import norm_text
@@ -33,6 +36,7 @@ EXPLANATION = (
     "the reference point. Not decided: convergence of compute_beta, closed-form lifetime vs literal accumulation, gamma_L "
     "against the guideline (no second statement of those formulas in the repository).")
 EXPLANATION += (' R-C09-2 additionally requires E to be the assessment parameter, not the material-group table value. R-C09-6: the early-failure position (searchsorted in the cumulative damage of all rows) is compared with the row count of those same rows in both lifetime properties of both calculators, which use the same test and report 0 repetitions / the failure position; P_RAM: x = (1 - D_1)/D_2 with the damage sums of pass 1 / pass 2, repetitions x + 1, cycles = repetitions times the pass-2 count.')
+EXPLANATION += (" R-C09-4 now decides each load safety factor per P_L case on the closed form of the returned value (definitions inlined, conditional expressions case-split): normal (L_max + alpha)/L_max, log-normal max(1, 10**alpha), alpha = (0.7 beta - 2) s | 0.7 beta s. R-C09-7: compute_beta hands the failure probability itself to the normal distribution function; forming 1 - P_A first (cancellation for small probabilities) is a violation.")
 ASSUMPTIONS = ["P_Z, P_D, N positive; d_1, d_2, d_RAJ negative (checked by the curve validators)",
                "statistics.NormalDist().inv_cdf is the standard normal quantile"]
 
@@ -70,7 +74,7 @@ class CurveNF:
 
 
 def run(ctx):
-    for r in (_curves, _pram, _constants, _beta, _half, _accumulation):
+    for r in (_curves, _pram, _constants, _beta, _half, _accumulation, _complement):
         ctx.attempt(r)
 
 
@@ -82,6 +86,44 @@ def _stmt_value(f, name=None):
         if isinstance(s, ast.Assign) and isinstance(s.targets[0], ast.Name) and s.targets[0].id == nm:
             return s
     raise AnalysisError("%s: definition of the returned value not found" % f.key)
+
+
+DIST_FUNCS = {"ppf", "isf", "cdf", "sf", "logcdf", "logsf", "inv_cdf", "erfinv", "erfcinv", "ndtri"}
+
+
+def _complement_sites(node, params):
+    """calls of a distribution function whose argument forms 1 - p from a probability parameter p"""
+    seen, bad = [], []
+    for c in ast.walk(node):
+        if isinstance(c, ast.Call) and (call_name(c) or "").split(".")[-1] in DIST_FUNCS:
+            seen.append(c)
+            for a in list(c.args) + [k.value for k in c.keywords]:
+                for b in ast.walk(a):
+                    if isinstance(b, ast.BinOp) and isinstance(b.op, ast.Sub) and const_value(b.left) in (1, 1.0) and \
+                            names_in(b.right) & set(params):
+                        bad.append((c, b))
+    return seen, bad
+
+
+def _complement(ctx):
+    """R-C09-7: no cancellation in the safety index."""
+    prog = ctx.prog
+    ctx.rule("R-C09-7", floor=1, what="safety index: the failure probability reaches the normal distribution uncomplemented")
+    ex = ast.parse("def beta(P_A):\n    return norm.ppf(1 - P_A)\n").body[0]
+    if len(_complement_sites(ex, ["P_A"])[1]) != 1:
+        raise AnalysisError("R-C09-7 built-in example not matched")
+    f = prog.func("pylife.strength.fkm_nonlinear.parameter_calculations:compute_beta")
+    seen, bad = _complement_sites(f.node, f.params)
+    if not seen:
+        raise AnalysisError("compute_beta: no call of a normal-distribution function found")
+    for c, b in bad:
+        ctx.violated(f, c, "%s forms %s in floating point before the distribution function sees it: for small failure "
+                     "probabilities the complement rounds (1 - p == 1 for p < 1.1e-16), the index is no longer the negative "
+                     "quantile of p; use the quantile of p itself (ppf(p) = -isf(p))" % (norm_text(c), norm_text(b)),
+                     text="complement " + (call_name(c) or "").split(".")[-1])
+    if not bad:
+        for c in seen:
+            ctx.holds(f, c, "%s receives the failure probability itself" % norm_text(c))
 
 
 def _curves(ctx):
@@ -386,64 +428,57 @@ def _beta(ctx):
         ctx.holds(f, loop[0], "beta is looked up by the requested P_A")
     else:
         ctx.violated(f, loop[0] if loop else f.node, "beta look-up does not return the beta paired with the requested P_A")
-    shapes = {}
+    want = {True: to_nf(parse_expr("(0.7*beta - 2)*SD")), False: to_nf(parse_expr("0.7*beta*SD"))}
     for cls, sd in (("FKMLoadDistributionNormal", "s_L"), ("FKMLoadDistributionLognormal", "LSD_s")):
         g = prog.func(LD + cls + ".gamma_L")
-        br = [s for s in g.node.body if isinstance(s, ast.If) and "P_L" in norm_text(s.test)]
-        if len(br) != 1:
-            raise AnalysisError("%s.gamma_L: P_L branch not found" % cls)
+        rets = [s_ for s_ in walk_function(g.node) if isinstance(s_, ast.Return)]
+        if len(rets) != 1:
+            raise AnalysisError("%s.gamma_L: expected a single return" % cls)
+        env = inline_env(CFG(g.node), rets[0])
+        env.pop("__ambiguous__", None)
+        full = subst_names(rets[0].value, env)
 
-        bnames = [s_.targets[0].id for s_ in g.node.body if isinstance(s_, ast.Assign) and isinstance(s_.targets[0], ast.Name)
-                  and isinstance(s_.value, ast.Call) and isinstance(s_.value.func, ast.Attribute) and s_.value.func.attr == "_get_beta"]
-
-        def atom(e, sd=sd, bnames=bnames):
+        def atom(e, sd=sd):
             if isinstance(e, ast.Attribute) and e.attr == sd:
                 return "SD"
-            if isinstance(e, ast.Name) and e.id in bnames:
+            if isinstance(e, ast.Call) and isinstance(e.func, ast.Attribute) and e.func.attr == "_get_beta":
                 return "beta"
-            if isinstance(e, ast.Name):
-                return e.id
+            if isinstance(e, ast.Call) and isinstance(e.func, ast.Attribute) and e.func.attr == "maximum_absolute_load":
+                return "Lmax"
             return None
-        try:
-            a25 = to_nf(br[0].body[0].value, atom=atom)
-            a50 = to_nf(br[0].orelse[0].value, atom=atom)
-        except NFUnsupported as e:
-            raise AnalysisError("%s.gamma_L alpha outside the fragment: %s" % (cls, e))
-        shapes[cls] = (norm_text(br[0].test), a25, a50, g, br[0])
-    (t1, a1, b1, g1, n1), (t2, a2, b2, g2, n2) = shapes["FKMLoadDistributionNormal"], shapes["FKMLoadDistributionLognormal"]
-    want25 = to_nf(parse_expr("(0.7*beta - 2)*SD"))
-    want50 = to_nf(parse_expr("0.7*beta*SD"))
-    if t1 == t2 == "np.isclose(input_parameters.P_L, 2.5)" and a1 == a2 == want25 and b1 == b2 == want50:
-        ctx.holds(g2, n2, "normal and log-normal: alpha = (0.7 beta - 2) s for P_L = 2.5 %, 0.7 beta s otherwise")
-    else:
-        ctx.violated(g2, n2, "alpha of the normal (%r / %r on %s) and log-normal (%r / %r on %s) load safety factors do not share "
-                     "the shape (0.7 beta - 2) s | 0.7 beta s keyed on P_L = 2.5" % (a1, b1, t1, a2, b2, t2))
-    def returned_def(fn):
-        r = [s_ for s_ in fn.node.body if isinstance(s_, ast.Return)][-1]
-        if isinstance(r.value, ast.Name):
-            return [s_ for s_ in fn.node.body if isinstance(s_, ast.Assign) and isinstance(s_.targets[0], ast.Name)
-                    and s_.targets[0].id == r.value.id]
-        return []
-    r1 = returned_def(g1)
-    alpha1 = n1.body[0].targets[0].id if isinstance(n1.body[0], ast.Assign) and isinstance(n1.body[0].targets[0], ast.Name) else None
-    lmax = [s_.targets[0].id for s_ in g1.node.body if isinstance(s_, ast.Assign) and isinstance(s_.targets[0], ast.Name) and
-            isinstance(s_.value, ast.Call) and isinstance(s_.value.func, ast.Attribute) and s_.value.func.attr == "maximum_absolute_load"]
-    try:
-        ok = r1 and alpha1 and lmax and to_nf(r1[0].value) == to_nf(parse_expr("(%s + %s)/%s" % (lmax[0], alpha1, lmax[0])))
-    except NFUnsupported:
-        ok = False
-    if ok:
-        ctx.holds(g1, r1[0], "normal: gamma_L = (L_max + alpha_L)/L_max")
-    else:
-        ctx.violated(g1, r1[0] if r1 else g1.node, "normal load safety factor is not (L_max + alpha_L)/L_max")
-    r2 = returned_def(g2)
-    alpha2 = n2.body[0].targets[0].id if isinstance(n2.body[0], ast.Assign) and isinstance(n2.body[0].targets[0], ast.Name) else None
-    ok = r2 and isinstance(r2[0].value, ast.Call) and call_name(r2[0].value) == "max" and \
-        {norm_text(a) for a in r2[0].value.args} == {"1", "10 ** %s" % alpha2}
-    if ok:
-        ctx.holds(g2, r2[0], "log-normal: gamma_L = max(1, 10^alpha)")
-    else:
-        ctx.violated(g2, r2[0] if r2 else g2.node, "log-normal load safety factor is not max(1, 10**alpha_LSD)")
+        cases = _ifexp_cases(full)
+        keyed = {}
+        for tests, e in cases:
+            if len(tests) != 1 or norm_text(tests[0][0]) != "np.isclose(input_parameters.P_L, 2.5)":
+                keyed = None
+                break
+            keyed[tests[0][1]] = e
+        if not keyed or set(keyed) != {True, False}:
+            ctx.violated(g, rets[0], "%s load safety factor is not keyed on the single test P_L = 2.5 %% (found %s)"
+                         % (cls, [[norm_text(t) for t, _ in ts] for ts, _ in cases]))
+            continue
+        for is25, e in sorted(keyed.items(), reverse=True):
+            label = "P_L = 2.5 %" if is25 else "P_L = 50 %"
+            try:
+                if cls == "FKMLoadDistributionNormal":
+                    ok = to_nf(e, atom=atom) == (to_nf(parse_expr("Lmax")) + want[is25]) / to_nf(parse_expr("Lmax"))
+                    shape = "(L_max + alpha)/L_max"
+                else:
+                    shape = "max(1, 10**alpha)"
+                    ok = isinstance(e, ast.Call) and call_name(e) in ("max", "np.maximum") and len(e.args) == 2 and not e.keywords
+                    if ok:
+                        one = [a_ for a_ in e.args if const_value(a_) in (1, 1.0)]
+                        pw = [a_ for a_ in e.args if isinstance(a_, ast.BinOp) and isinstance(a_.op, ast.Pow)
+                              and const_value(a_.left) in (10, 10.0)]
+                        ok = len(one) == 1 and len(pw) == 1 and to_nf(pw[0].right, atom=atom) == want[is25]
+            except NFUnsupported as ex:
+                raise AnalysisError("%s.gamma_L outside the fragment: %s" % (cls, ex))
+            if ok:
+                ctx.holds(g, rets[0], "%s, %s: gamma_L = %s with alpha = %s" % (cls, label, shape,
+                                                                            "(0.7 beta - 2) s" if is25 else "0.7 beta s"))
+            else:
+                ctx.violated(g, rets[0], "%s, %s: gamma_L = %s is not %s with alpha = %s" % (
+                    cls, label, norm_text(e), shape, "(0.7 beta - 2) s" if is25 else "0.7 beta s"), text="%s %s" % (cls, label))
     gb = prog.func(LD + "FKMLoadDistributionBlanket.gamma_L")
     br = [s for s in gb.node.body if isinstance(s, ast.If)]
     vals = {}
@@ -458,6 +493,38 @@ def _beta(ctx):
         ctx.holds(gb, br[0], "blanket: 1.1 for P_L = 2.5 %, 1.0 for P_L = 50 %")
     else:
         ctx.violated(gb, br[0] if br else gb.node, "blanket load safety factors are %s, expected {2.5: 1.1, 50: 1.0}" % vals)
+
+
+def _replace_in(expr, target, repl):
+    if expr is target:
+        return repl
+    if isinstance(expr, ast.AST):
+        new = type(expr)()
+        for k, v in ast.iter_fields(expr):
+            setattr(new, k, _replace_in(v, target, repl))
+        return ast.copy_location(new, expr) if hasattr(expr, "lineno") else new
+    if isinstance(expr, list):
+        return [_replace_in(x, target, repl) for x in expr]
+    return expr
+
+
+def _ifexp_cases(expr, tests=()):
+    """Case split of an expression on the conditional expressions it contains: [(((test, taken), ...), expr)]."""
+    first = None
+    for n in ast.walk(expr):
+        if isinstance(n, ast.IfExp):
+            first = n
+            break
+    if first is None:
+        return [(list(tests), expr)]
+    out = []
+    for taken, arm in ((True, first.body), (False, first.orelse)):
+        if any(norm_text(t) == norm_text(first.test) and tk != taken for t, tk in tests):
+            continue
+        e2 = _replace_in(expr, first, arm)
+        tt = tests if any(norm_text(t) == norm_text(first.test) for t, _ in tests) else tests + ((first.test, taken),)
+        out.extend(_ifexp_cases(e2, tt))
+    return out
 
 
 def _attr_defs(prog, ci, attr):
@@ -719,6 +786,35 @@ def variants():
                 return replace_node(n, parse_expr("1 / damage_sum_second_run - damage_sum_first_run / damage_sum_second_run"))
         return False
     out.append(twin("x written as 1/D2 - D1/D2", DCP, x_rewritten))
+
+    def gamma_branches(keep_max):
+        def f(tree):
+            g = find_func(tree, "FKMLoadDistributionLognormal.gamma_L")
+            ifs = [s_ for s_ in g.body if isinstance(s_, ast.If)]
+            if len(ifs) != 1:
+                return False
+            i = g.body.index(ifs[0])
+            a25 = "max(1, 10 ** ((0.7 * beta - 2) * input_parameters.LSD_s))" if keep_max else \
+                "10 ** ((0.7 * beta - 2) * input_parameters.LSD_s)"
+            new = ast.parse("if np.isclose(input_parameters.P_L, 2.5):\n    gamma_L = %s\nelse:\n"
+                            "    gamma_L = max(1, 10 ** (0.7 * beta * input_parameters.LSD_s))\nreturn gamma_L\n" % a25).body
+            g.body[i:] = new
+            return True
+        return f
+    out.append(witness("log-normal gamma_L computed per branch, lower bound 1 lost for P_L = 2.5 %", LP, gamma_branches(False),
+                       "R-C09-4"))
+    out.append(twin("log-normal gamma_L computed per branch with max(1, .) in both", LP, gamma_branches(True)))
+
+    def beta_closed(expr):
+        def f(tree):
+            g = find_func(tree, "compute_beta")
+            keep = [s_ for s_ in g.body if isinstance(s_, ast.Expr) and isinstance(s_.value, ast.Constant)]
+            g.body[:] = keep + ast.parse("return %s\n" % expr).body
+            return True
+        return f
+    PCP = "src/pylife/strength/fkm_nonlinear/parameter_calculations.py"
+    out.append(witness("beta = ppf(1 - P_A)", PCP, beta_closed("scipy.stats.norm.ppf(1 - P_A)"), "R-C09-7"))
+    out.append(twin("beta = -ppf(P_A)", PCP, beta_closed("-scipy.stats.norm.ppf(P_A)")))
 
     def swap_d(tree):
         f = find_func(tree, "WoehlerCurvePRAM.calc_P_RAM")
